@@ -92,14 +92,28 @@ Lemma wf_bytes_app x y : wf_bytes (x ++ y) = wf_bytes x && wf_bytes y.
 Proof. unfold wf_bytes. apply forallb_app. Qed.
 
 Lemma take_drop n l : take n l ++ drop n l = l.
-Proof. apply firstn_skipn. Qed.
+Proof. unfold take, drop. apply firstn_skipn. Qed.
+
+Lemma take_firstn n l : take n l = firstn (N.to_nat n) l.
+Proof.
+  unfold take, len. destruct (N.le_ge_cases n (N.of_nat (length l))) as [H|H].
+  - now rewrite N.min_l.
+  - rewrite N.min_r, Nat2N.id by assumption. rewrite firstn_all. symmetry. apply firstn_all2. lia.
+Qed.
+
+Lemma drop_skipn n l : drop n l = skipn (N.to_nat n) l.
+Proof.
+  unfold drop, len. destruct (N.le_ge_cases n (N.of_nat (length l))) as [H|H].
+  - now rewrite N.min_l.
+  - rewrite N.min_r, Nat2N.id by assumption. rewrite skipn_all. symmetry. apply skipn_all2. lia.
+Qed.
 
 Lemma take_app_exact x y : take (len x) (x ++ y) = x.
 Proof.
-  unfold take, len. rewrite Nat2N.id, firstn_app, Nat.sub_diag, firstn_all. cbn. apply app_nil_r.
+  rewrite take_firstn. unfold len. rewrite Nat2N.id, firstn_app, Nat.sub_diag, firstn_all. cbn. apply app_nil_r.
 Qed.
 
 Lemma drop_app_exact x y : drop (len x) (x ++ y) = y.
 Proof.
-  unfold drop, len. rewrite Nat2N.id, skipn_app, Nat.sub_diag, skipn_all. reflexivity.
+  rewrite drop_skipn. unfold len. rewrite Nat2N.id, skipn_app, Nat.sub_diag, skipn_all. reflexivity.
 Qed.
